@@ -211,7 +211,7 @@ fn c03_groupable_n1() {
     core::mem::forget(sent);
 }
 
-//@ c03_char_info_lookup {"desc":"char_info returns the table entry of the code point, and the DEFAULT entry (index 0) for characters beyond the table, for every Unicode scalar","bounds":"table of 5 entries (the real one has 65536; the lookup code is the same)","symbolic":"the character (any char, astral included), all table entries","functions":["CharProperty::char_info","Sentence::compute_categories"],"unwind":7,"timeout":300}
+//@ c03_char_info_lookup {"desc":"char_info returns the table entry of the code point, and entry 0 (the one of U+0000, which is DEFAULT unless a range line covers U+0000 - see c03_kf_astral_inherits_u0000) for characters beyond the table, for every Unicode scalar","bounds":"table of 5 entries (the real one has 65536; the lookup code is the same)","symbolic":"the character (any char, astral included), all table entries","functions":["CharProperty::char_info","Sentence::compute_categories"],"unwind":7,"timeout":300}
 #[cfg(kani)]
 #[kani::proof]
 fn c03_char_info_lookup() {
